@@ -33,6 +33,7 @@ class IntrospectablePass(object):
 
     def validate(self):
         self._namespace.walk(self._introspectable_alias_analysis)
+        self._namespace.walk(self._introspectable_constant_analysis)
         self._namespace.walk(self._propagate_callable_skips)
         self._namespace.walk(self._analyze_node)
         self._namespace.walk(self._introspectable_callable_analysis)
@@ -171,6 +172,12 @@ class IntrospectablePass(object):
     def _introspectable_alias_analysis(self, obj, stack):
         if isinstance(obj, ast.Alias):
             if not self._type_is_introspectable(obj.target):
+                obj.introspectable = False
+        return True
+
+    def _introspectable_constant_analysis(self, obj, stack):
+        if isinstance(obj, ast.Constant):
+            if not self._type_is_introspectable(obj.value_type):
                 obj.introspectable = False
         return True
 
